@@ -13,6 +13,11 @@ Driver for C20.
   model needed whose loss the implementation never computed), `margin` (smallest distance of an
   early-stopping comparison from its threshold), `order_ok`.
 * `{"op":"sort","ids":["0.3","0.1",…]}` → `perm` (positions of the gathered list in sorted order)
+* `{"op":"topk_history","k":k,"calls":[{"losses":[rat…],"order":[…]},…],"outs":[{"indices":[…],"weights":[rat…]}|null,…]}`
+  (a history of `select()` calls on ONE `TopKSelector(k)` object; `outs` = what the real object returned per
+  call, `null` where it raised / returned something that is not a list of naturals) → `steps` (per call:
+  `sel`, `weights` of `topKHistory`, `order_ok`, `stable`, `spec` = `checkTopK` of the real answer of that
+  call or `null`), `all` = `checkTopKHistory` of the whole history (`null` when an answer is missing)
 -/
 
 open Lean DH.Wire DH.Select
@@ -73,6 +78,13 @@ def resName : Res → String
   | .emptyEnsemble => "emptyEnsemble"
   | .allNaN => "allNaN"
 
+def jCall (j : Json) : Except String TopKCall := do
+  return { losses := ← jList jRat (← field j "losses"), order := ← jList jNat (← field j "order") }
+
+def jOutOpt (j : Json) : Except String (Option (List Nat × List Rat)) := do
+  if j.isNull then return none
+  return some (← jList jNat (← field j "indices"), ← jList jRat (← field j "weights"))
+
 def handle (j : Json) : Except String Json := do
   let op ← (← field j "op").getStr?
   match op with
@@ -123,6 +135,24 @@ def handle (j : Json) : Except String Json := do
     let idx ← jList jNat (← field j "indices")
     let w ← jList jRat (← field j "weights")
     return Json.mkObj [("ok", true), ("spec", checkTopK losses k idx w)]
+  | "topk_history" =>
+    -- one TopKSelector(k) object, a history of calls: the model (`topKHistory`) and the verified checkers
+    let k ← jNat (← field j "k")
+    let calls ← jList jCall (← field j "calls")
+    let outs ← jList jOutOpt (← field j "outs")
+    if outs.length != calls.length then throw "topk_history: one entry of outs per call"
+    let model := topKHistory k calls
+    let steps := ((calls.zip model).zip outs).map (fun ((c, m), o) =>
+      let key : Nat → Rat := fun i => c.losses.getD i 0
+      Json.mkObj [("sel", ofNats m.1), ("weights", ofRats m.2), ("order_ok", orderOK c.losses c.order),
+        ("stable", decide (argsort key c.losses.length = c.order)),
+        ("spec", match o with
+          | some (idx, w) => Json.bool (checkTopK c.losses k idx w)
+          | none => Json.null)])
+    let given := outs.filterMap id
+    let all := if given.length == outs.length
+      then Json.bool (checkTopKHistory k (calls.map (·.losses)) given) else Json.null
+    return Json.mkObj [("ok", true), ("steps", .arr steps.toArray), ("all", all)]
   | "check_greedy" =>
     let tol ← jRat (← field j "tol")
     let n ← jNat (← field j "n")
